@@ -280,6 +280,29 @@ def finder_case(rng):
     return {'adds': adds, 'collate': [], 'outputs': [], 'nget': 4, 'gseed': rng.randrange(1 << 30), 'size': 'finder'}
 
 
+def select_case(rng):
+    """directed: an OPTIONAL remote index field read through a DataSelect (PVD1.igreg) that is given, empty, or the
+    numeric index 0 (a valid idx: several stock cases number their buses from 0)"""
+    adds = []
+
+    def add(model, idx, params):
+        ref = None if idx is not None else 'auto%d' % len(adds)
+        adds.append({'model': model, 'idx': idx, 'params': params, 'ref': ref})
+        return idx if idx is not None else {'auto': ref}
+    zero_at = rng.choice([0, 1, 2])
+    buses = [add('Bus', 0 if k == zero_at else 10 + 3 * k, {}) for k in range(3)]
+    add('Slack', None, {'bus': buses[0]})
+    for k in rng.sample(range(3), 3):
+        own = buses[k]
+        pv = add('PV', None, {'bus': own})
+        prm = {'bus': own, 'gen': pv, 'pqflag': 1.0}
+        r = rng.random()
+        if r < 0.7:
+            prm['igreg'] = buses[(k + rng.choice([1, 2])) % 3]     # a remote bus, sometimes the one with idx 0
+        add('PVD1', None, prm)
+    return {'adds': adds, 'collate': [], 'outputs': [], 'nget': 4, 'gseed': rng.randrange(1 << 30), 'size': 'select'}
+
+
 # ------------------------------------------------------------------ real code
 
 def build(case):
@@ -599,7 +622,7 @@ def oracle_links(ss, incompatible=()):
     """an external variable / parameter resolves to the device named by the index field"""
     import numpy as np
     from andes.core.param import ExtParam, IdxParam
-    from andes.core.service import DeviceFinder
+    from andes.core.service import DeviceFinder, DataSelect
     bad = []
     for mn, m in ss.models.items():
         if m.n == 0 or not hasattr(m, 'idx'):
@@ -609,6 +632,18 @@ def oracle_links(ss, incompatible=()):
                 continue
             ids = flat(e.indexer.v)
             given = set()
+            if isinstance(e.indexer, DataSelect):
+                # an optional index field that was given (any value other than None / NaN, the number 0 included) is
+                # the index to follow; the fall-back field is used only where it was not given
+                for k, (gv, fb) in enumerate(zip(e.indexer.optional.v, e.indexer.fallback.v)):
+                    if k >= len(ids):
+                        break
+                    if gv is not None and not (isinstance(gv, float) and gv != gv):
+                        if len(owner_of(ss, e.model, gv)) == 1:
+                            ids[k] = gv
+                            given.add(k)
+                    else:
+                        ids[k] = fb
             if isinstance(e.indexer, DeviceFinder):
                 # the finder may only fill in EMPTY or INVALID fields: a field that was given and names an existing
                 # device of the target is the index the borrowed variable has to follow
